@@ -19,7 +19,7 @@ func textsAt(l lm.List, num, den int64) string {
 	set := map[string]bool{}
 	for _, c := range l {
 		if c.S*den <= num && num < c.E*den {
-			set[c.T] = true
+			set[lm.Shown(c.T)] = true
 		}
 	}
 	var o []string
@@ -57,7 +57,7 @@ func checkUnfragment(l lm.List, unit int64) (lm.List, string, string) {
 	}
 	for i := range got {
 		for j := range got {
-			if i != j && got[i].T == got[j].T && got[i].S <= got[j].S && got[j].S <= got[i].E {
+			if i != j && lm.Shown(got[i].T) == lm.Shown(got[j].T) && got[i].S <= got[j].S && got[j].S <= got[i].E {
 				return exp, "unfragment.touching-left", fmt.Sprintf("Unfragment on %s: same-text cues still touch: %s", l, got)
 			}
 		}
@@ -80,7 +80,7 @@ func checkUnfragment(l lm.List, unit int64) (lm.List, string, string) {
 func noTouchingSameText(l lm.List) bool {
 	for i := range l {
 		for j := range l {
-			if i < j && l[i].T == l[j].T {
+			if i < j && lm.Shown(l[i].T) == lm.Shown(l[j].T) {
 				a, b := l[i], l[j]
 				if a.S <= b.E && b.S <= a.E {
 					return false
@@ -102,10 +102,12 @@ func c11Run(c *core.Ctx) {
 	var invMax int
 	var invGrid int64
 	if c.Tier == core.Quick {
-		scopes = []scope{{5, 2, []string{"x", "y", "z"}, []int64{ms, hour + ms}}, {4, 3, []string{"x", "y"}, []int64{ms}}, {3, 4, []string{"x", "y"}, []int64{ms}}}
+		scopes = []scope{{5, 2, []string{"x", "y", "z"}, []int64{ms, hour + ms}}, {4, 3, []string{"x", "y"}, []int64{ms}}, {3, 4, []string{"x", "y"}, []int64{ms}},
+			{4, 3, []string{"xy", "x|y", "z"}, []int64{ms}}} // the same text in one run and in two
 		invMax, invGrid = 3, 6
 	} else {
-		scopes = []scope{{5, 3, []string{"x", "y", "z"}, []int64{ms, hour + ms}}, {4, 4, []string{"x", "y"}, []int64{ms, ns}}, {5, 4, []string{"x", "y"}, []int64{ms}}, {3, 5, []string{"x", "y"}, []int64{ms}}}
+		scopes = []scope{{5, 3, []string{"x", "y", "z"}, []int64{ms, hour + ms}}, {4, 4, []string{"x", "y"}, []int64{ms, ns}}, {5, 4, []string{"x", "y"}, []int64{ms}}, {3, 5, []string{"x", "y"}, []int64{ms}},
+			{4, 4, []string{"xy", "x|y", "z"}, []int64{ms}}}
 		invMax, invGrid = 3, 9
 	}
 	for _, sc := range scopes {
@@ -196,7 +198,7 @@ func init() {
 		ID: "C11", Level: "model_checking",
 		Rule: "states = canonical cue lists; transitions = Unfragment by the real code on a fresh real list compared with the connected-components specification, plus the property's invariants evaluated on the real result (ordered, no same-text cues touching, same texts on screen at every grid instant and half-instant); inverse-law transitions start from fragmented states; non-trivial = at least one merge happened / an inverse-law case",
 		Scope: map[core.Tier]string{
-			core.Quick:    "all lists (any order, overlaps, zero-length, duplicates) of <=2 cues on 0..5 with 3 texts (1ms, 1h+1ms), <=3 on 0..4 and <=4 on 0..3 with 2 texts; inverse law: all start-ordered lists of <=3 cues on 0..6 free of touching same-text cues x f in 1..5",
+			core.Quick:    "all lists (any order, overlaps, zero-length, duplicates) of <=2 cues on 0..5 with 3 texts (1ms, 1h+1ms), <=3 on 0..4 and <=4 on 0..3 with 2 texts, <=3 on 0..4 with one text in two segmentations (one run / two runs) and another; inverse law: all start-ordered lists of <=3 cues on 0..6 free of touching same-text cues x f in 1..5",
 			core.Thorough: "<=3 cues on 0..5 with 3 texts (1ms, 1h+1ms), <=4 on 0..4 (1ms,1ns) and on 0..5, <=5 on 0..3 with 2 texts; inverse law: <=3 cues on 0..9 x f in 1..5",
 		},
 		Assumptions: []string{"Go toolchain and standard library", "single-line texts (the library compares cues by their joined text)", "reference models refops.Unfragment, refops.Fragment"},
